@@ -34,7 +34,7 @@ def emit(U):
     F = 'main/src/rule.rs'
     M = 'main/src/predefined_node/mod.rs'
     U.ghost(P.CORE, 'core vocabulary')
-    U.ghost(P.input_trait_decl(['span', 'at_start', 'at_end', 'match_string'], position_impl=True), 'trait Input (contracts only) + impl for Position (contracts only)')
+    U.ghost(P.input_trait_decl(P.INPUT_BASIC, position_impl=True), 'trait Input (contracts only) + impl for Position (contracts only)')
     U.ghost(P.TRAITS, 'trait contracts')
     U.ghost("pub open spec fn sem_eoi<'i>(c: Ctx<'i>, pos: nat, st: Seq<Span<'i>>) -> Res<'i> { if pos == c.end { Some((pos, st)) } else { None } }", 'sem of EOI')
     st = U.block_item(M, r'pub struct EOI\b', 'struct EOI').drop_attrs()
